@@ -17,8 +17,8 @@ from sim.world import BACKENDS
 class C07(Check):
     prop = "C07"
     level = "exploration"
-    quick_runs = 6000
-    thorough_runs = 150000
+    quick_runs = 12000
+    thorough_runs = 300000
     rule = (
         "2-4 watcher streams (strictly increasing timestamps, non-decreasing end instants, zero/positive durations, "
         "1-3 letter data alphabet, gaps just below/at/above the pulsetime, ends tying with the previous event) fed by "
